@@ -293,6 +293,18 @@ def run(p: Program, rep: Report, tier: str) -> None:
                 rep.ok("R9.4", "hosts: entry returned only after pattern.fullmatch(host) succeeded")
             elif okm is False and any(t[0] == "call" and t[1] in (("builtin", "filter"), ("builtin", "next"), ("builtin", "map"), ("ext", "itertools.dropwhile"), ("ext", "itertools.compress")) for f, _t in pa.facts for t in subterms(f)):
                 rep.undecide("R9.4", "the host entry is selected by a filter/next pipeline with a predicate object; the acceptance test is not read off it: " + "; ".join(pa.fact_text())[:100])
+            elif okm is False and pa.value[0] == "sub" and pa.value[1][0] == "attr" and pa.value[1][1] == ("param", "self"):
+                # an entry taken from a memo of earlier answers kept on the instance
+                mkey = pa.value[2]
+                if mkey == ("param", "host"):
+                    rep.undecide("R9.4", f"hosts: search() answers from a memo self.{pa.value[1][2]} keyed by the Host value itself; that it only ever holds fullmatch results is not followed")
+                elif contains(mkey, ("param", "host")):
+                    rep.violation("R9.4", construct(hsearch, text=f"memo self.{pa.value[1][2]}[{show(mkey)[:40]}]"), where(hsearch),
+                                  f"hosts: search() answers from a memo keyed by `{show(mkey)[:40]}`, not by the Host value the patterns are matched against: two Host values that the key "
+                                  "identifies (API.example.com / api.example.com) share one answer although only one of them fullmatches a pattern - the first request decides whether the "
+                                  "other is let in or answered 404", positive=True)
+                else:
+                    rep.undecide("R9.4", f"hosts: search() answers from self.{pa.value[1][2]} under a key not derived from the Host value")
             elif okm is False:
                 rep.violation("R9.4", construct(hsearch, text="accept: " + "; ".join(pa.fact_text())), where(hsearch), "host entry accepted without a fullmatch of the Host header")
     if not any(pa.exit == "return" and pa.value == NONE for pa in paths):
